@@ -265,13 +265,22 @@ class Handler:
 
         def ev(kind, detail="", extra=None):
             evs.append(Ev(kind, detail, b, k, bi, sp, extra=extra))
+        def ret_kind(a):
+            """error type of a `Ret<E>` = oneshot::Sender<Result<(), E>> operand (e.g. 'ScheduleError')"""
+            ty = a["p"]["ty"] if a["k"] != "const" else ""
+            i = ty.find("Result<(), ")
+            if i < 0:
+                return name_of_operand(b, a) or "?"
+            e = ty[i + len("Result<(), "):]
+            e = e.split(">")[0]
+            return e.rsplit("::", 1)[-1]
         if n0 == "polytune_server_core::state::ret_err":
             vs = agg_variants(b, operand_local(args[1])) if operand_local(args[1]) is not None else set()
-            ev("reply_err", name_of_operand(b, args[0]) or "?", extra="|".join(sorted(vs)) or None)
+            ev("reply_err", ret_kind(args[0]), extra="|".join(sorted(vs)) or None)
         elif n0.endswith("oneshot::Sender::<T>::send"):
             val = agg_def(b, operand_local(args[1])) if operand_local(args[1]) is not None else None
-            who = name_of_operand(b, args[0]) or "?"
             ty = args[0]["p"]["ty"] if args[0]["k"] != "const" else ""
+            who = ret_kind(args[0]) if "Result<()" in ty else (name_of_operand(b, args[0]) or "?")
             if "Result<()" in ty:
                 if val is not None and val.get("variant") == "Ok":
                     ev("reply_ok", who)
